@@ -1,4 +1,4 @@
-import DymVerif.Lemmas.SponsClaim
+import DymVerif.Lemmas.SponsShares
 import DymVerif.Lemmas.GenEqSpons
 /-
   Props/C16 — Sponsorship weights track staked power; endorsement claims are bounded.
@@ -290,6 +290,90 @@ example : ClaimCtx claimWorld 3 0 ⟨0, 1, 20, 20⟩ 100 ∧
     have : x ∈ [(1, (⟨10, [(1, full)]⟩ : Vote)), (0, ⟨10, [(1, full)]⟩)] := hx
     simp only [List.mem_cons, List.mem_nil_iff, or_false] at this
     rcases this with rfl | rfl <;> decide
+
+/-- **endorsement_shares_partial** — along every history whose hooks split integrally, the total
+    shares of a rollapp's endorsement are the sum over the votes of their power on the rollapp gauge -/
+theorem endorsement_shares_partial (s : State) (ops : List Op) (r rg : Nat) (wf : WF s) (inv : DistInv s)
+    (hg : RaGauge s r rg) (hs : ShareInv s r rg) (hd : RunDivisible s ops) :
+    ShareInv (run s ops) r rg ∧ RaGauge (run s ops) r rg := by
+  induction ops generalizing s with
+  | nil => exact ⟨hs, hg⟩
+  | cons op ops ih =>
+    have g := step_good wf inv hd.1
+    have sh := step_share wf inv hg hs hd.1
+    exact ih _ g.1 g.2 sh.2 sh.1 hd.2
+
+/-- non-vacuity: in `s0` gauge 1 is the one rollapp gauge of r0 and the shares are exact -/
+theorem s0_raGauge : RaGauge s0 0 1 := by
+  refine ⟨fun g => ?_, by decide⟩
+  have hne : ∀ a b : Nat, a ≠ b → (a == b) = false := fun a b h => by simpa using h
+  by_cases h1 : g = 1
+  · subst h1; exact ⟨fun _ => rfl, fun _ => by decide⟩
+  by_cases h2 : g = 2
+  · subst h2; exact ⟨fun h => (by revert h; decide), fun h => (by cases h)⟩
+  by_cases h3 : g = 3
+  · subst h3; exact ⟨fun h => (by revert h; decide), fun h => (by cases h)⟩
+  by_cases h4 : g = 4
+  · subst h4; exact ⟨fun h => (by revert h; decide), fun h => (by cases h)⟩
+  have : raOf s0.gauges g = none := by
+    simp [raOf, s0, State.init, g1, g2, g3, g4, List.find?,
+      hne 1 g (Ne.symm h1), hne 2 g (Ne.symm h2), hne 3 g (Ne.symm h3), hne 4 g (Ne.symm h4)]
+  rw [this]; exact ⟨fun h => (by cases h), fun h => absurd h h1⟩
+
+example : ShareInv s0 0 1 := rfl
+
+example : RunDivisible s0 [stake 0 0 10, .vote 0 [(1, half)], stake 0 0 20] ∧
+    ShareInv (run s0 [stake 0 0 10, .vote 0 [(1, half)], stake 0 0 20]) 0 1 ∧
+    totalOf (run s0 [stake 0 0 10, .vote 0 [(1, half)], stake 0 0 20]).endorsements 0 = 10 := by
+  refine ⟨⟨⟨fun v hv => (by cases hv), fun _ _ => trivial⟩, trivial, ⟨?_, fun _ _ => trivial⟩, trivial⟩, by unfold ShareInv; decide, by decide⟩
+  intro v hv _
+  have : v = ⟨10, [(1, half)]⟩ := by
+    have h : some (⟨10, [(1, half)]⟩ : Vote) = some v := by rw [← hv]; decide
+    exact (Option.some.inj h).symm
+  subst this
+  intro w hw
+  simp only [List.mem_singleton] at hw
+  subst hw
+  decide
+
+theorem epochEnd_endorsements (s : State) (d : Bool) :
+    (s.epochEnd d).endorsements = s.endorsements.map (fun e => { e with epoch := e.total }) ∧
+    (s.epochEnd d).blacklist = [] := by
+  cases d
+  · exact ⟨rfl, rfl⟩
+  · refine ⟨?_, rfl⟩
+    show (s.incentivesEpochEnd.endorsements).map _ = _
+    unfold State.incentivesEpochEnd; simp only; split <;> rfl
+
+/-- **claims_le_allotment_after_epoch_end_partial** — if the shares are exact when an epoch (of any
+    identifier) ends, then whatever claims follow (and nothing else), the endorsement gauge `eg` of
+    rollapp `r` pays at most its epoch rewards `R`. -/
+theorem claims_le_allotment_after_epoch_end_partial (s : State) (d : Bool) (r rg eg : Nat) (R : Int)
+    (ops : List Op) (wf : WF s) (hs : ShareInv s r rg) (e : Endorsement)
+    (he : s.endorsement? r = some e) (heg : e.gaugeId = rg) (hpos : 0 < e.total)
+    (hG : GaugeIs (s.epochEnd d) eg r R) (hR : 0 ≤ R) (hall : ∀ op ∈ ops, isClaim op = true) :
+    runPaid (s.epochEnd d) eg ops ≤ R := by
+  have hee := epochEnd_endorsements s d
+  have hcore := (epochEnd_core s d).1
+  have he' : (s.epochEnd d).endorsement? r = some { e with epoch := e.total } := by
+    unfold State.endorsement?
+    rw [hee.1, find_map_r (f := fun e => { e with epoch := e.total }) (fun _ => rfl)]
+    unfold State.endorsement? at he
+    rw [he]; rfl
+  have hpow : ∀ x ∈ s.votes, x.2.gaugePower rg = x.2.pow rg :=
+    fun x hx => ((pow_eq_gaugePower (wf.votes x hx) rg).1).symm
+  have hcov : usum (s.epochEnd d).blacklist rg (s.epochEnd d).votes = e.total := by
+    rw [hee.2, hcore.votes, usum_nil_eq, vsum_congr (f := fun v => v.gaugePower rg) (g := fun v => v.pow rg) hpow]
+    have : totalOf s.endorsements r = e.total := by
+      unfold totalOf; unfold State.endorsement? at he; rw [he]
+    rw [← this]; exact hs.symm
+  subst heg
+  refine claims_le_allotment_partial (s.epochEnd d) eg r { e with epoch := e.total } R ops
+    ⟨hG, he', hcore.votes ▸ wf.keys, ?_⟩ hR hpos (Int.le_of_eq hcov) hall
+  intro x hx
+  rw [hcore.votes] at hx
+  show 0 ≤ x.2.gaugePower e.gaugeId
+  rw [hpow x hx]; exact (wf.votes x hx).pow_nonneg _
 
 /-- F7 — a0 and a1 hold 10 each at the snapshot (allotment 100); a0 raises its stake to 30 and claims
     150 > 100 (paid out of the module's pooled balance), a1 still claims its 50 -/
